@@ -371,10 +371,21 @@ def caller_side(ctx, rep):
     }
     found = {}
     defs = common.defs_of(fn)
+    pr = common.powers_roles(db)
+    if pr is None:
+        rep.ob('C16.caller', 'powers_array-roles', False, 'powers_array: cannot tell which parameter is the challenge and which the count '
+               '(expected one integer parameter and one Felt parameter that multiplies the accumulator)', fn.loc(), db.config)
+        return
+    import exprtree
+    Tc = exprtree.Trees(db, fn)
     for bi, t in fn.calls():
         if t['f'].get('resolved', '').endswith('::powers_array') or t['f'].get('path', '').endswith('::powers_array'):
-            ln = df.operand_leaves(t['args'][2])
-            al = {f'call:{p}@bb{b}' for p, b in common.origin_calls(fn, t['args'][1], defs)}
+            ln = df.operand_leaves(t['args'][pr['n'] - 1])
+            al = {f'call:{p}@bb{b}' for p, b in common.origin_calls(fn, t['args'][pr['alpha'] - 1], defs)}
+            if pr['initial'] is not None:
+                it = Tc.operand(t['args'][pr['initial'] - 1])
+                rep.ob('C16.caller', f'initial=1|{t["line"] and len(found)}', it == ('val', 1),
+                       f'powers_array is started at {exprtree.show(it)} (coefficient 0 must be alpha^0 = 1)', fn.loc(t['line']), db.config)
             for kind, w in want.items():
                 if w <= ln and not any(x.startswith('const:' + common.LAYOUT_TRAIT) for x in ln - w):
                     found[kind] = (t['line'], al)
@@ -409,7 +420,12 @@ def powers(ctx, rep):
     fl = dataflow.Flow(db, fn)
     T = exprtree.Trees(db, fn)
     why = []
-    allowed = {'with_capacity', 'new', 'reserve', 'into_iter', 'next', 'push', 'mul_assign', 'mul'}
+    pr = common.powers_roles(db)
+    if pr is None:
+        rep.ob('C16.powers', 'powers_array', False, 'powers_array: parameter roles not recognisable (one integer count, one Felt multiplier)', fn.loc(), cfg)
+        return
+    AN, AA = f'a{pr["n"]}', f'a{pr["alpha"]}'
+    allowed = {'with_capacity', 'new', 'reserve', 'into_iter', 'next', 'push', 'mul_assign', 'mul', 'len'}
     other = sorted({t['f'].get('name') for _, t in fn.calls()} - allowed)
     if other:
         why.append(f'other operations: {other}')
@@ -417,8 +433,25 @@ def powers(ctx, rep):
     if len(be) != 1:
         why.append(f'{len(be)} loops (expected one)')
     sites = [g for g in dataflow.own_iter_sites(db, fn, fl) if g.kind == 'iter:loop']
-    if len(sites) != 1 or sites[0].root != 'range' or not (set(sites[0].lhs) <= {'a3', 'lit:0'} and 'a3' in sites[0].lhs):
-        why.append('the loop does not run over 0..n')
+    # `for _ in 0..n` or `while array.len() < n`: the count is n (possibly cast), nothing drawn from the Felt parameters
+    bound_ok = False
+    if len(sites) == 1:
+        lv = set(sites[0].lhs)
+        felt_leaves = {x for x in lv if x.startswith('a') and x != AN and x[1:2].isdigit()}
+        if sites[0].root == 'range':
+            bound_ok = AN in lv and lv <= {AN, 'lit:0'}
+        elif sites[0].root == 'cond':
+            # the only exit test compares the length of the vector being filled with n
+            tests = []
+            for b in fn.blocks:
+                tm = b['term']
+                if tm['k'] == 'switch' and not b.get('cleanup'):
+                    tests.append(T.operand(tm['op']))
+            arr = [T.operand(t['args'][0]) for _, t in fn.calls() if t['f'].get('name') == 'push']
+            bound_ok = len(tests) == 1 and len(arr) == 1 and isinstance(tests[0], tuple) and tests[0][0] in ('Lt', 'lt') and \
+                tests[0][1] == ('len', arr[0]) and tests[0][2] == ('arg', pr['n'])
+    if not bound_ok:
+        why.append('the loop does not run n times (0..n, or while array.len() < n)')
     pushes = [(bi, t) for bi, t in fn.calls() if t['f'].get('name') == 'push']
     muls = [(bi, t) for bi, t in fn.calls() if t['f'].get('name') in ('mul_assign', 'mul')]
     if len(pushes) != 1 or len(muls) != 1:
@@ -461,9 +494,10 @@ def powers(ctx, rep):
             inits = [d for d in ds if d[1] == 'assign']
             if mt['f'].get('name') == 'mul':
                 inits = [d for d in inits if d[0] not in loop_blocks]
-            if len(inits) != 1 or T.rvalue(inits[0][2], 0) != ('arg', 1):
-                why.append('the accumulator does not start as `initial`')
-        if set(fl.operand_leaves(mt['args'][1])) != {'a2'}:
+            want_init = ('arg', pr['initial']) if pr['initial'] is not None else ('val', 1)
+            if len(inits) != 1 or T.rvalue(inits[0][2], 0) != want_init:
+                why.append('the accumulator does not start as `initial` (or as 1 when there is no such parameter)')
+        if set(fl.operand_leaves(mt['args'][1])) != {AA}:
             why.append(f'the multiplier is not alpha alone (leaves {sorted(fl.operand_leaves(mt["args"][1]))[:4]})')
     rep.ob('C16.powers', 'powers_array', not why,
            'powers_array pushes initial, initial*alpha, initial*alpha^2, ... (accumulator loop over 0..n)' if not why else
